@@ -33,10 +33,10 @@ def slRemove : List Item → Bytes → F64 → List Item
 def zAdd (z : ZSet) (member : Bytes) (score : F64) : ZSet × Int :=
   match AList.get? z.dict member with
   | some old =>
-    let dict := AList.set z.dict member score
-    if F64.ne score old then
-      ({ dict := dict, sl := slInsert (slRemove z.sl member old) member score }, 0)
-    else ({ z with dict := dict }, 0)
+    -- an equal score (IEEE equality: also +0 against -0) changes nothing, neither in the
+    -- dictionary nor in the index
+    if F64.eq score old then (z, 0) else
+    ({ dict := AList.set z.dict member score, sl := slInsert (slRemove z.sl member old) member score }, 0)
   | none => ({ dict := AList.set z.dict member score, sl := slInsert z.sl member score }, 1)
 
 def zAddXX (z : ZSet) (m : Bytes) (s : F64) : ZSet × Int :=
@@ -182,28 +182,29 @@ def skipN (desc : Bool) : Option Cursor → Int → Option Cursor
 termination_by _ off => off.toNat
 decreasing_by omega
 
-/-- main loop of `forEach` (by score) with the `zRange` consumer (which skips exclusive-bound
-    hits but always continues) -/
+/-- loop of `zRange`: walk the closed range from the start node; offset and limit count only
+    members that satisfy the (possibly exclusive) bounds -/
 def scoreLoop (desc : Bool) (min max : F64) (mode : Nat) (limit : Int) :
-    Option Cursor → Nat → Nat → List Item → List Item
+    Option Cursor → Int → Nat → List Item → List Item
   | none, _, _, acc => acc.reverse
   | _, _, 0, acc => acc.reverse
-  | some c, i, fuel + 1, acc =>
-    if !((i : Int) < limit ∨ limit < 0) then acc.reverse else
-    let skip := (mode % 2 = 1 ∧ F64.eq c.cur.1 min) ∨ (mode / 2 % 2 = 1 ∧ F64.eq c.cur.1 max)
-    let acc := if skip then acc else c.cur :: acc
-    match (if desc then c.prev else c.next) with
-    | none => acc.reverse
-    | some c' =>
-      if !(F64.le min c'.cur.1) ∨ !(F64.ge max c'.cur.1) then acc.reverse
-      else scoreLoop desc min max mode limit (some c') (i + 1) fuel acc
+  | some c, offset, fuel + 1, acc =>
+    let sc := c.cur.1
+    if !(F64.le min sc && F64.le sc max) then acc.reverse else
+    let excluded := (mode % 2 = 1 ∧ F64.eq sc min) ∨ (mode / 2 % 2 = 1 ∧ F64.eq sc max)
+    let next := if desc then c.prev else c.next
+    if excluded then scoreLoop desc min max mode limit next offset fuel acc
+    else if offset > 0 then scoreLoop desc min max mode limit next (offset - 1) fuel acc
+    else
+      let acc := c.cur :: acc
+      if limit > 0 ∧ (acc.length : Int) = limit then acc.reverse
+      else scoreLoop desc min max mode limit next offset fuel acc
 
 /-- `zRange(min, max, offset, limit, desc, mode)` -/
 def rangeByScore (z : ZSet) (min max : F64) (offset limit : Int) (desc : Bool) (mode : Nat) : List Item :=
   if limit = 0 ∨ offset < 0 then [] else
   let start := if desc then getLastInRange z.sl min max else getFirstInRange z.sl min max
-  let start := skipN desc start offset
-  scoreLoop desc min max mode limit start 0 (z.sl.length + 1) []
+  scoreLoop desc min max mode limit start offset (z.sl.length + 1) []
 
 /-- `skiplist.removeRange(min, max, 0, mode)` -/
 def slRemoveRange (sl : List Item) (min max : F64) (mode : Nat) : List Item × List Item :=
